@@ -47,6 +47,9 @@ ASSUMPTIONS = [
     "'the specification's type-system rules' are those of the June 2018 edition, whose grammar the parser implements (no `repeatable`, no "
     "`interface … implements`, no schema description): the October 2021 rule against input objects that reference themselves through "
     "non-null fields only (`input A { a: A! }`, hunt3 C11/5) is not one of them and such documents are expected to build",
+    "public extend_schema: the roots of the schema being extended are KEPT and only `extend schema` adds roots — a new type named Mutation / "
+    "Subscription does not become a root (Lean: extend_roots_not_rederived); the generated extension documents use other names, and the "
+    "expected content of extend_schema(build(A), B) is the content declared by A followed by B",
     "documents are given as text (str / bytes) or as the parser's output; hand-built Document objects that the grammar cannot produce "
     "(`on FOO`, `Int!!`, an operation kind other than query / mutation / subscription; hunt3 C11/4) are measured every run and recorded as a "
     "known finding",
